@@ -88,6 +88,9 @@ def gen_table(rng, max_n=40, nsids=None, axes_p=(0.65, 0.5), index_kinds=None, n
         tbl["index"]["perm"] = perm
     if kind == "offset":
         tbl["index"]["start"] = rng.pick((1, 7, 100))
+    if rng.chance(0.25):
+        # non-default axis column / variable names, handed to the stream constructors
+        tbl["names"] = {k: v for k, v in (("time", "t_utc"), ("z", "depth"), ("lat", "latitude"), ("lon", "longitude")) if rng.chance(0.6)}
     return tbl
 
 
@@ -415,7 +418,13 @@ def gen_config(rng, tbl, max_ctx=4, max_tests=3, window_layout=None, fault_kinds
                 e = gen_healthy_entry(rng, sid, tbl, exclude={(m, t) for (s, m, t) in used if s == sid})
                 used.add((sid, e["module"], e["test"]))
                 entries.append(e)
-        contexts.append({"window": w, "entries": entries})
+        ctx = {"window": w, "entries": entries}
+        if rng.chance(0.15):
+            # a GeoJSON region: parsed into the Context but, as documented, it does not subset anything
+            x, y = rng.randint(-100, 100), rng.randint(-60, 60)
+            geom = {"type": "Polygon", "coordinates": [[[x, y], [x + 5, y], [x + 5, y + 5], [x, y + 5], [x, y]]]}
+            ctx["region"] = rng.pick(({"geometry": geom}, {"features": [{"type": "Feature", "properties": {}, "geometry": geom}]}))
+        contexts.append(ctx)
     nf = 0
     if fault_kinds and max_faults:
         for _ in range(rng.randint(1, max_faults)):
